@@ -14,4 +14,5 @@ Init == cfg \in Sizes \X Seeds /\ st = "todo"
 Next == st = "todo" /\ st' = "done" /\ UNCHANGED cfg
 Spec == Init /\ [][Next]_<<cfg, st>>
 Sane == st = "done" => OracleSane(BaseModel(cfg[1][1], cfg[1][2], cfg[2]), Order)
+ReSane == st = "done" => ReOracleSane(BaseModel(cfg[1][1], cfg[1][2], cfg[2]), Order)
 =============================================================================
